@@ -197,7 +197,7 @@ ENGINES = [
      "interpretation of the x86_64 and aarch64 dynasm clauses (fv/asm*.py, fv/a64*.py, fv/x86sem.py); float-class abstract "
      "interpretation (fv/nanflow.py); sympy identities (fv/sym.py); WGSL front end (fv/wgsl*.py); path summaries of the branching "
      "x86_64 clauses decided over order types (fv/x86pw.py); a symbolic mini-interpreter for small numeric bodies (fv/corners.py, fv/qef.py); "
-     "quadrant / corner tables (fv/quadrant.py)"},
+     "quadrant / corner tables (fv/quadrant.py); term comparison of the rand / mix hash across all native implementations (fv/hashsem.py)"},
 ]
 
 NOTES = (
